@@ -99,7 +99,10 @@ def runGeneric {σ : Type} (step : σ → Op Int String → Outcome (σ × Res I
     match parseOp line with
     | none => out := out.push "bad-op"
     | some op =>
-      match step s op with
+      -- hand the state over (no second reference is kept), so that the arrays can be updated in place
+      let cur := s
+      s := init
+      match step cur op with
       | .ok (s', r) => s := s'; out := out.push (showRes r)
       | .panic => dead := true; out := out.push "panic"
       | .diverge => dead := true; out := out.push "hang"
